@@ -41,9 +41,9 @@ func init() {
 func (Engine) Name() string { return "xofsim" }
 func (Engine) Runs(prop, tier string) int {
 	if tier == "thorough" {
-		return 1500000
+		return 40000000
 	}
-	return 120000
+	return 600000
 }
 func (Engine) Real() []string {
 	return []string{"xof/blake2xb, xof/blake2xs, xof/keccak (New, Write, Read, XORKeyStream, Reseed, Clone, Reset)", "suite XOF factories (edwards25519, p256, bn256)", "util/random (New, randstream.XORKeyStream, Int, Bits, Bytes)"}
